@@ -6,10 +6,15 @@
 /* The block pointer of a compression / final call is a separate object (string, heap buffer) in every caller except
    getFileHash, which passes the hasher's own hashblock member.  The contracts are proved in both shapes: the *_alias
    obligations are compiled with WV_INPUT_ALIAS. */
-#ifdef WV_INPUT_ALIAS
-#define WV_IN(hb, input, n) ((input) == (hb))
+#ifdef WV_ALIAS_COMPRESS
+#define WV_IN1(hb, input, n) ((input) == (hb))
 #else
-#define WV_IN(hb, input, n) __CPROVER_is_fresh(input, n)
+#define WV_IN1(hb, input, n) __CPROVER_is_fresh(input, n)
+#endif
+#ifdef WV_ALIAS_FINAL
+#define WV_IN2(hb, input, n) ((input) == (hb))
+#else
+#define WV_IN2(hb, input, n) __CPROVER_is_fresh(input, n)
 #endif
 /* logging part of a compression call (what callers see) */
 #define WV_COMPRESS_LOG(input) \
@@ -22,7 +27,7 @@
 
 /* ---------------- SHA-256 */
 void sha256hash__getHash_1(sha256hash *this, const u8_t *input)
-__CPROVER_requires(__CPROVER_is_fresh(this, sizeof(*this)) && WV_IN(this->_base.hashblock, input, 64) && wv_g < 64 && wv_hl_n < (1ull << 62))
+__CPROVER_requires(__CPROVER_is_fresh(this, sizeof(*this)) && WV_IN1(this->_base.hashblock, input, 64) && wv_g < 64 && wv_hl_n < (1ull << 62))
 __CPROVER_assigns(WV_ARR(this->h), WV_ARR(this->w), WV_ARR(this->s), this->_base.totalsize, WV_HGHOSTS)
 __CPROVER_ensures(this->_base.totalsize == __CPROVER_old(this->_base.totalsize) + 512)
 WV_COMPRESS_LOG(input)
@@ -36,7 +41,7 @@ __CPROVER_ensures(WV_FEED(0) && WV_FEED(1) && WV_FEED(2) && WV_FEED(3) && WV_FEE
 
 /* ---------------- SHA-1 */
 void sha1hash__getHash_1(sha1hash *this, const u8_t *input)
-__CPROVER_requires(__CPROVER_is_fresh(this, sizeof(*this)) && WV_IN(this->_base.hashblock, input, 64) && wv_g < 64 && wv_hl_n < (1ull << 62))
+__CPROVER_requires(__CPROVER_is_fresh(this, sizeof(*this)) && WV_IN1(this->_base.hashblock, input, 64) && wv_g < 64 && wv_hl_n < (1ull << 62))
 __CPROVER_assigns(WV_ARR(this->h), WV_ARR(this->w), WV_ARR(this->s), this->_base.totalsize, WV_HGHOSTS)
 __CPROVER_ensures(this->_base.totalsize == __CPROVER_old(this->_base.totalsize) + 512)
 WV_COMPRESS_LOG(input)
@@ -48,7 +53,7 @@ __CPROVER_ensures(WV_FEED(0) && WV_FEED(1) && WV_FEED(2) && WV_FEED(3) && WV_FEE
 
 /* ---------------- MD5 */
 void md5hash__getHash_1(md5hash *this, const u8_t *input)
-__CPROVER_requires(__CPROVER_is_fresh(this, sizeof(*this)) && WV_IN(this->_base.hashblock, input, 64) && wv_g < 64 && wv_hl_n < (1ull << 62))
+__CPROVER_requires(__CPROVER_is_fresh(this, sizeof(*this)) && WV_IN1(this->_base.hashblock, input, 64) && wv_g < 64 && wv_hl_n < (1ull << 62))
 __CPROVER_assigns(WV_ARR(this->h), WV_ARR(this->s), this->_base.totalsize, WV_HGHOSTS)
 __CPROVER_ensures(this->_base.totalsize == __CPROVER_old(this->_base.totalsize) + 512)
 WV_COMPRESS_LOG(input)
@@ -65,7 +70,7 @@ __CPROVER_ensures(WV_FEED(0) && WV_FEED(1) && WV_FEED(2) && WV_FEED(3));
 #define WV_FINAL_ASSIGNS_md5hash WV_ARR(this->h), WV_ARR(this->s), this->_base.totalsize
 #define WV_FINAL_CONTRACT(cls, BE) \
 void cls##__getHash_2(cls *this, const u8_t *input, u32_t final_loadsize) \
-__CPROVER_requires(__CPROVER_is_fresh(this, sizeof(*this)) && final_loadsize < 64 && WV_IN(this->_base.hashblock, input, final_loadsize) && wv_g < 64 && wv_hl_n < (1ull << 61)) \
+__CPROVER_requires(__CPROVER_is_fresh(this, sizeof(*this)) && final_loadsize < 64 && WV_IN2(this->_base.hashblock, input, final_loadsize) && wv_g < 64 && wv_hl_n < (1ull << 61)) \
 __CPROVER_assigns(WV_FINAL_ASSIGNS_##cls, WV_HGHOSTS) \
 __CPROVER_ensures(wv_hl_n == __CPROVER_old(wv_hl_n) + (final_loadsize < 56 ? 1 : 2)) \
 __CPROVER_ensures(wv_hl_fptr == input && wv_hl_fr == final_loadsize && wv_hl_ftotal == __CPROVER_old(this->_base.totalsize)) \
@@ -108,7 +113,13 @@ __CPROVER_assigns(__CPROVER_object_upto(hashout, 16))
 __CPROVER_ensures(hashout[wv_gr] == (u8_t)(this->h[wv_gr >> 2] >> (8 * (wv_gr & 3))));
 
 /* ---------------- abstract contracts (R5 dispatchers): what the drivers rely on, what every subclass must satisfy */
-#define WV_HM_SIZE sizeof(sha1hash)     /* the largest subclass */
+/* size of a hasher object: callers only need the base part to be readable; the proofs of the dispatchers and drivers themselves
+   (compiled with WV_HM_BIG) allocate the largest subclass so that every dynamic type fits */
+#ifdef WV_HM_BIG
+#define WV_HM_SIZE sizeof(sha1hash)
+#else
+#define WV_HM_SIZE sizeof(Hashmaster)
+#endif
 #define WV_IS_HASHER(p) (WV_TAG_OF(p) == WV_TAG_sha1hash || WV_TAG_OF(p) == WV_TAG_md5hash || WV_TAG_OF(p) == WV_TAG_sha256hash)
 #define WV_HLEN(p) (WV_TAG_OF(p) == WV_TAG_sha1hash ? 20 : WV_TAG_OF(p) == WV_TAG_md5hash ? 16 : 32)
 /* conditional assigns targets: the digest buffer has the selected hash's length */
@@ -128,14 +139,14 @@ __CPROVER_assigns(__CPROVER_object_whole(this))
 __CPROVER_ensures(this->totalsize == 0 && WV_TAG_OF(this) == __CPROVER_old(WV_TAG_OF(this)));
 
 void Hashmaster__getHash_1(Hashmaster *this, const u8_t *input)
-__CPROVER_requires(__CPROVER_is_fresh(this, WV_HM_SIZE) && WV_IS_HASHER(this) && WV_IN(this->hashblock, input, 64) && wv_g < 64 && wv_hl_n < (1ull << 61))
+__CPROVER_requires(__CPROVER_is_fresh(this, WV_HM_SIZE) && WV_IS_HASHER(this) && WV_IN1(this->hashblock, input, 64) && wv_g < 64 && wv_hl_n < (1ull << 61))
 __CPROVER_assigns(__CPROVER_object_whole(this), WV_HGHOSTS)
 __CPROVER_ensures(this->totalsize == __CPROVER_old(this->totalsize) + 512 && WV_TAG_OF(this) == __CPROVER_old(WV_TAG_OF(this)))
 WV_COMPRESS_LOG(input);
 
 #define WV_BITLEN_A ((u64_t)__CPROVER_old(this->totalsize) + 8ull * final_loadsize)
 void Hashmaster__getHash_2(Hashmaster *this, const u8_t *input, u32_t final_loadsize)
-__CPROVER_requires(__CPROVER_is_fresh(this, WV_HM_SIZE) && WV_IS_HASHER(this) && final_loadsize < 64 && WV_IN(this->hashblock, input, final_loadsize) && wv_g < 64 && wv_hl_n < (1ull << 60))
+__CPROVER_requires(__CPROVER_is_fresh(this, WV_HM_SIZE) && WV_IS_HASHER(this) && final_loadsize < 64 && WV_IN2(this->hashblock, input, final_loadsize) && wv_g < 64 && wv_hl_n < (1ull << 60))
 __CPROVER_assigns(__CPROVER_object_whole(this), WV_HGHOSTS)
 __CPROVER_ensures(WV_TAG_OF(this) == __CPROVER_old(WV_TAG_OF(this)))
 __CPROVER_ensures(wv_hl_n == __CPROVER_old(wv_hl_n) + (final_loadsize < 56 ? 1 : 2))
@@ -167,7 +178,7 @@ __CPROVER_ensures(__CPROVER_return_value == 64);
 void Hashmaster__getStringHash(Hashmaster *this, const u8_t *string, u32_t length, u8_t *hashres)
 __CPROVER_requires(__CPROVER_is_fresh(this, WV_HM_SIZE) && WV_IS_HASHER(this) && __CPROVER_is_fresh(string, length) &&
                    __CPROVER_is_fresh(hashres, WV_HLEN(this)) && wv_g < 64 && wv_gr < WV_HLEN(this) && wv_hl_n < (1ull << 58))
-__CPROVER_assigns(__CPROVER_object_whole(this), WV_HGHOSTS)
+__CPROVER_assigns(__CPROVER_object_whole(this), WV_HGHOSTS, wv_hl_out)
 __CPROVER_assigns(WV_ASSIGNS_DIGEST(this, hashres))
 __CPROVER_ensures(WV_TAG_OF(this) == __CPROVER_old(WV_TAG_OF(this)))
 __CPROVER_ensures(wv_hl_n == __CPROVER_old(wv_hl_n) + WV_NFULL + ((length & 63) < 56 ? 1 : 2))
@@ -175,7 +186,7 @@ __CPROVER_ensures(wv_hl_n == __CPROVER_old(wv_hl_n) + WV_NFULL + ((length & 63) 
 __CPROVER_ensures((wv_hl_watch >= __CPROVER_old(wv_hl_n) && WV_REL < WV_NFULL) ==> wv_hl_wptr == string + 64 * (size_t)WV_REL)
 /* ... and the final routine gets the tail, its length, and a bit counter that equals 8 * (bytes hashed before) */
 __CPROVER_ensures(wv_hl_fptr == string + 64 * (size_t)WV_NFULL && wv_hl_fr == (length & 63) && wv_hl_ftotal == 512ull * WV_NFULL)
-__CPROVER_ensures(hashres[wv_gr] == WV_HSER(this, wv_gr));
+__CPROVER_ensures(hashres[wv_gr] == WV_HSER(this, wv_gr) && wv_hl_out == hashres);
 
 /* ---------------- hashing buffer: the sequence of units delivered is 64, 64, ..., 64, short (lengths; content is not modelled) */
 #include "file.h"
@@ -188,10 +199,10 @@ void filebuffer64__ctor(filebuffer64 *this, FILE *fp, u8_t *block)
 __CPROVER_requires(__CPROVER_is_fresh(this, sizeof(*this)) && __CPROVER_is_fresh(fp, sizeof(*fp)) && WV_FILE_OK(fp) &&
                    (block != NULL ==> __CPROVER_is_fresh(block, 64)))
 __CPROVER_assigns(*this, fp->pos, fp->eof)
-__CPROVER_ensures(this->fp == fp && this->_base._wv_tag == WV_TAG_filebuffer64 && WV_FB_OK(this) && !WV_FB_DONE(this))
+__CPROVER_ensures(this->fp == fp && this->_base._wv_tag == WV_TAG_filebuffer64 && WV_FB_OK_F(this, fp) && !WV_FB_DONE(this))
 __CPROVER_ensures(this->has_extra == (block != NULL))
 /* the stream is: the prefix block if one was given, then the file from its position at construction to its end */
-__CPROVER_ensures(WV_FB_LEFT(this) == (block != NULL ? 64ull : 0ull) + (__CPROVER_old(fp->len) - __CPROVER_old(fp->pos)));
+__CPROVER_ensures(WV_FB_LEFT_F(this, fp) == (block != NULL ? 64ull : 0ull) + (__CPROVER_old(fp->len) - __CPROVER_old(fp->pos)));
 
 u32_t filebuffer64__read_buffer64(filebuffer64 *this, u8_t *block)
 __CPROVER_requires(WV_FB_FRESH(this) && WV_FB_OK(this) && !WV_FB_DONE(this) && __CPROVER_is_fresh(block, 64))
@@ -215,11 +226,11 @@ __CPROVER_ensures(WV_FB(this)->fp == __CPROVER_old(WV_FB(this)->fp) && WV_FB(thi
 void Hashmaster__getFileHash(Hashmaster *this, buffer64 *buffer, u8_t *hashres)
 __CPROVER_requires(__CPROVER_is_fresh(this, WV_HM_SIZE) && WV_IS_HASHER(this) && WV_FB_FRESH(WV_FB(buffer)) && WV_TAG_OF(buffer) == WV_TAG_filebuffer64 &&
                    WV_FB_OK(WV_FB(buffer)) && !WV_FB_DONE(WV_FB(buffer)) && __CPROVER_is_fresh(hashres, WV_HLEN(this)) && wv_g < 64 && wv_gr < WV_HLEN(this) && wv_hl_n < (1ull << 58))
-__CPROVER_assigns(__CPROVER_object_whole(this), WV_FB_STATE(WV_FB(buffer)), WV_HGHOSTS, wv_fb_left0)
+__CPROVER_assigns(__CPROVER_object_whole(this), WV_FB_STATE(WV_FB(buffer)), WV_HGHOSTS, wv_hl_out, wv_fb_left0)
 __CPROVER_assigns(WV_ASSIGNS_DIGEST(this, hashres))
 __CPROVER_ensures(WV_TAG_OF(this) == __CPROVER_old(WV_TAG_OF(this)))
 __CPROVER_ensures(wv_hl_n == __CPROVER_old(wv_hl_n) + (WV_FB_LEFT_OLD(WV_FB(buffer)) >> 6) + ((WV_FB_LEFT_OLD(WV_FB(buffer)) & 63) < 56 ? 1 : 2))
 __CPROVER_ensures(wv_hl_fr == (WV_FB_LEFT_OLD(WV_FB(buffer)) & 63) && wv_hl_ftotal == 512ull * (WV_FB_LEFT_OLD(WV_FB(buffer)) >> 6))
 __CPROVER_ensures(WV_FB_LEFT(WV_FB(buffer)) == 0 && WV_FB(buffer)->fp->pos == WV_FB(buffer)->fp->len)
-__CPROVER_ensures(hashres[wv_gr] == WV_HSER(this, wv_gr));
+__CPROVER_ensures(hashres[wv_gr] == WV_HSER(this, wv_gr) && wv_hl_out == hashres);
 #endif
